@@ -993,6 +993,39 @@ def laws(W, rec):
             law("C08/combined-copied-together", got_twice == ["1", "1"] and got_holder == (True, ["1"], True) and "w" not in b and "w2" not in b,
                 f"{nm_}: a view over one dict twice, copied, then one add to the copied dict: the view lists {got_twice!r}; a holder of args, form and their view, copied, then one add to the copied form: "
                 f"(key visible through the view, values, length agrees) = {got_holder!r}", case)
+    # what a read hands out for an *absent* key belongs to the caller: appending to it changes no container, now or later
+    for cls_nm in ("MultiDict", "FileMultiDict", "Headers"):
+        cls_ = getattr(DS, cls_nm)
+        d1, d2 = cls_(), cls_([("k", "v")] if cls_nm != "FileMultiDict" else [])
+        outs = []
+        for reader in ("poplist", "getlist", "setlistdefault-then-pop") if cls_nm != "Headers" else ("getlist", "get_all"):
+            for d_ in (d1, d2, d1):
+                if reader == "setlistdefault-then-pop":
+                    got_ = d_.poplist("absent-" + reader)
+                else:
+                    got_ = getattr(d_, reader)("absent-" + reader)
+                outs.append(list(got_))
+                got_.append("left behind by a caller")
+        law("C08/absent-key-result-shared", all(o == [] for o in outs) and "left behind by a caller" not in repr(list(d1.items(multi=True)) if cls_nm != "Headers" else list(d1)),
+            f"{cls_nm}: reads of absent keys, each result appended to by the caller, returned {outs!r}", cls_nm)
+    # h | other is a new container whatever `other` holds - also nothing
+    for other in ({}, DS.MultiDict(), DS.Headers(), [], {"k": []}, {"x": "1"}):
+        h0 = DS.Headers([("A", "1"), ("b", "2")])
+        try:
+            c0 = h0 | other
+        except TypeError:
+            continue  # (a list is not a mapping: refusing it is fine)
+        c0.add("added-to-the-result", "x")
+        h0.add("added-to-the-operand", "y")
+        law("C08/or-result-not-independent", c0 is not h0 and "added-to-the-result" not in h0 and "added-to-the-operand" not in c0,
+            f"Headers | {other!r}: result is operand: {c0 is h0}; operand now {list(h0)!r}, result {list(c0)!r}", repr(other))
+        m0 = DS.MultiDict([("a", "1")])
+        try:
+            c1 = m0 | other
+        except TypeError:
+            continue
+        c1.add("added-to-the-result", "x")
+        law("C08/or-result-not-independent", c1 is not m0 and "added-to-the-result" not in m0, f"MultiDict | {other!r}: operand now {list(m0.items(multi=True))!r}", repr(other))
     # Headers store str(value): values that compare and hash alike but read differently (True / 1 / 1.0, 0 / False / -0.0,
     # 2.5 / Fraction(5, 2)) meet in one process, through every way of storing a value
     from decimal import Decimal
